@@ -68,7 +68,9 @@ class ScalarFloat:
             return UNDEFINED_VALUE
 
         try:
-            return float(ast.value)
+            value = float(ast.value)
+            if isfinite(value):
+                return value
         except Exception:  # pylint: disable=broad-except
             pass
         return UNDEFINED_VALUE
